@@ -7,7 +7,7 @@
 (* reply, Cancel / Drain are context cancellation and shutdown().  In the content variant a     *)
 (* reply may carry content: the first such reply wins (CAS) and cancels the lookup.             *)
 (* Deviations (regression mutants): "AskTwice" (asked not recorded), "NoSelfMark" (local node   *)
-(* not pre-marked as asked), "AlphaPlus" (one query too many), "NoSeenFilter", "DrainMiscount"  *)
+(* not pre-marked as asked), "AlphaPlus" (one query too many), "NoSeenFilter", "DrainMiscount", "DrainGivesUp"  *)
 (* (seed C10-3: advance() folds every reply already waiting in the channel into one wake-up but *)
 (* counts one finished query - the in-flight counter stays too high and the lookup never ends). *)
 EXTENDS Integers, Sequences, FiniteSets, TLC, Json
@@ -89,8 +89,9 @@ Cancel == /\ phase = "run" /\ queries >= 0 /\ started /\ (Holders = {} \/ cancel
           /\ hist' = (IF Holders = {} THEN Append(hist, [ev |-> "cancel", p |-> 0, ans |-> {}, content |-> FALSE]) ELSE hist)
           /\ UNCHANGED <<asked, seen, result, inflight, replyCh, queries, started, qlog, winner, supplied>>
 Drain == /\ phase = "drain"
-         /\ IF queries > 0 THEN /\ replyCh # <<>> /\ replyCh' = Tail(replyCh) /\ queries' = queries - 1 /\ phase' = "drain"
-                           ELSE /\ phase' = "done" /\ UNCHANGED <<replyCh, queries>>
+         /\ \/ /\ queries > 0 /\ replyCh # <<>> /\ replyCh' = Tail(replyCh) /\ queries' = queries - 1 /\ phase' = "drain"
+            \/ /\ queries = 0 \/ "DrainGivesUp" \in Devs     \* deviation: shutdown stops waiting for a slow query
+               /\ phase' = "done" /\ UNCHANGED <<replyCh, queries>>
          /\ UNCHANGED <<asked, seen, result, inflight, started, cancelled, qlog, winner, supplied, hist>>
 
 \* the code waits in select when a query is outstanding and no reply is there: modelled by StartQueries being
@@ -107,6 +108,8 @@ Distinct   == \A i, j \in 1..Len(result) : i # j => result[i] # result[j]
 QueryBound == Cardinality(UNION {qlog[i] : i \in 1..Len(qlog)}) <= Cardinality(Peers)
 ContentOK  == phase = "done" => (IF supplied = {} THEN winner = 0 ELSE winner \in supplied)
 Closest    == (phase = "done" /\ ~cancelled) => \A n \in seen : (\E i \in 1..Len(result) : result[i] = n) \/ (Len(result) = K /\ n > result[K])
+\* the call returns only when no query is out any more (a straggler would write to a closed channel / a finished lookup)
+Drained    == phase = "done" => queries = 0
 Terminates == <>(phase = "done")
 \* generation (simulate mode): one JSON behaviour per finished lookup - the environment's choices only
 GenDone == phase = "done" => PrintT(<<"CASE", ToJson([peers |-> Cardinality(Peers), seed |-> TableSeed, holders |-> Holders, hist |-> hist,
